@@ -24,10 +24,12 @@ def meaning(ty, text):
     def num(s):
         s = s.strip()
         if isf:
+            import re
+            # Rust's float grammar: ASCII digits only (python's Fraction would also accept other Unicode digits)
+            if not re.fullmatch(r"[+-]?(\d+\.?\d*|\.\d+)([eE][+-]?\d+)?", s, flags=re.ASCII):
+                return None
             try:
-                if not s or s.lower().lstrip("+-") in ("inf", "infinity", "nan") or "_" in s:
-                    return None
-                v = Fraction(s)
+                v = Fraction(s if not s.endswith(".") else s + "0")
             except Exception:
                 return None
             lim = Fraction(2) ** (128 if ty == "f32" else 1024)
@@ -156,7 +158,13 @@ def run(ctx):
         ctx.seen({"ty": ty, "s": s}, nontrivial="ok" in rr and rr["ok"].get("r") in ("bounds", "multi", "exact"))
         ctx.count(ty + ":" + ("ok" if "ok" in rr else "err:" + rr.get("err", "?")))
         # impl vs model
-        ri = {"ok": rr["ok"]} if "ok" in rr else {"err": rr["err"]}
+        def nz(x):     # negative zero prints as "-0" in Rust; the model's exact decimals have a single zero
+            if isinstance(x, dict):
+                return {k: nz(v) for k, v in x.items()}
+            if isinstance(x, list):
+                return [nz(v) for v in x]
+            return "0" if x == "-0" else x
+        ri = {"ok": nz(rr["ok"])} if "ok" in rr else {"err": rr["err"]}
         if ri != m["range"] or (r["matches"] != m["matches"]):
             nonascii = any(ord(c) > 127 for c in s)
             odd_float = ty in ("f32", "f64") and any(x in s.lower() for x in ("e", "inf", "nan"))
